@@ -575,6 +575,27 @@ def gen_case(rng, circuit_friendly=False):
     return {"vars": vars_, "cons": cons, "solves": solves, "coll": rng.choice(["list", "list", "tuple", "gen", "iter"])}
 
 
+def gen_no_overlap_windows(rng):
+    """four or five tasks whose time windows chain: an opener with a tiny window, a task with a far-reaching window, a narrow early
+    task, and a late task that can only collide with the far-reaching one (any pruning of task pairs by windows has to keep that pair)"""
+    a = [0, rng.randint(0, 1), 1]
+    lb = rng.randint(0, 1)
+    b = [lb, lb + rng.randint(4, 6), rng.randint(2, 3)]
+    lc = rng.randint(1, 2)
+    c = [lc, lc, 1]
+    ld = rng.randint(4, 6)
+    d = [ld, ld + rng.randint(0, 1), rng.randint(1, 2)]
+    tasks = [a, b, c, d]
+    if rng.random() < 0.3:
+        le = rng.randint(8, 9)
+        tasks.append([le, le + 1, 1])
+    order = list(range(len(tasks)))
+    rng.shuffle(order)
+    vars_ = [["s%d" % k, tasks[i][0], tasks[i][1]] for k, i in enumerate(order)]
+    cons = [["no_overlap", list(range(len(tasks))), [tasks[i][2] for i in order]]]
+    return {"vars": vars_, "cons": cons, "solves": [dict(s) for s in SOLVES], "coll": rng.choice(["list", "tuple"])}
+
+
 def gen_cumulative_wide(rng):
     """cumulative over a window long enough that a time point has > 10 candidate literals"""
     nv = rng.randint(3, 4)
